@@ -24,7 +24,9 @@ def snapshot(d):
 def real_binary_part(ctx, ninja, known):
     d = tempfile.mkdtemp(prefix='verif-c19-', dir='/dev/shm'); n = 0
     try:
+        open(d + '/gen.in', 'w').write('G')      # older than build.ninja at first
         open(d + '/build.ninja', 'w').write(
+            'rule regen\n  command = echo regen >> regen.log; touch build.ninja\n  generator = 1\nbuild build.ninja: regen gen.in\n'
             'rule cc\n  command = cat $in > $out && echo "$out: hdr.h" > $out.d\n  depfile = $out.d\n  deps = gcc\n'
             'rule cat\n  command = cat $in > $out\nrule rs\n  command = cat $$(cat $out.rsp) > $out\n  rspfile = $out.rsp\n  rspfile_content = $in\n'
             'rule stamp\n  command = cat $in > $out.tmp && (cmp -s $out.tmp $out || cp $out.tmp $out)\n  restat = 1\n'
@@ -47,9 +49,13 @@ def real_binary_part(ctx, ninja, known):
         # make part of the tree dirty, then every observer must leave it byte-identical
         os.utime(d + '/a.c'); open(d + '/b.c', 'w').write('B2')
         st = os.stat(d + '/hdr.h'); os.utime(d + '/hdr.h', ns=(st.st_atime_ns, st.st_mtime_ns + 5_000_000_000))
+        # ... and the manifest itself stale (its generator input is newer): no observer may regenerate it
+        stb = os.stat(d + '/build.ninja'); os.utime(d + '/gen.in', ns=(stb.st_atime_ns, stb.st_mtime_ns + 7_000_000_000))
         tools = [('-n',), ('-n', '-v', 'prog'), ('-t', 'commands'), ('-t', 'commands', 'prog'), ('-t', 'inputs', 'prog'), ('-t', 'multi-inputs', 'prog', 'check'), ('-t', 'query', 'prog'),
                  ('-t', 'targets', 'all'), ('-t', 'targets', 'rule', 'cc'), ('-t', 'rules'), ('-t', 'graph'), ('-t', 'compdb'), ('-t', 'compdb', 'cc'),
-                 ('-t', 'compdb-targets', 'prog'), ('-t', 'deps'), ('-t', 'deps', 'a.o'), ('-t', 'missingdeps')]
+                 ('-t', 'compdb-targets', 'prog'), ('-t', 'deps'), ('-t', 'deps', 'a.o'), ('-t', 'missingdeps'),
+                 ('-t', 'compdb', 'cat'), ('-t', 'compdb', 'cat', 'cc'), ('-t', 'compdb', 'cc', 'cc'), ('-t', 'compdb', 'stamp', 'rs'), ('-t', 'compdb', '-x', 'rs', 'cc'),
+                 ('-t', 'compdb', 'nosuchrule'), ('-t', 'compdb-targets', 'check', 'lib'), ('-t', 'query', 'build.ninja'), ('-t', 'inputs', 'all'), ('-t', 'targets', 'depth', '2')]
         for t in tools:
             before = snapshot(d); r = run(*t); after = snapshot(d); n += 1
             after.pop('.ninja_lock', None)
@@ -59,12 +65,15 @@ def real_binary_part(ctx, ninja, known):
                 if t[0] == '-n' and 'dry-run-touches-tree' in known and all(k.endswith(('.d', '.rsp', '/')) for k in diff):
                     ctx.known_finding('id=dry-run-touches-tree ' + txt)
                 else: ctx.violation('tool-disturbs', 'real binary: ninja %s\n' % ' '.join(t), txt)
+            if os.path.exists(d + '/regen.log'):
+                ctx.violation('tool-disturbs', 'real binary: ninja %s\n' % ' '.join(t), 'ninja %s ran the manifest generator command (a stale build.ninja must be left alone by observers)' % ' '.join(t)); os.unlink(d + '/regen.log')
             if t[:2] in (('-t', 'compdb'), ('-t', 'compdb-targets')):
                 try: json.loads(r.stdout.decode('utf-8'))
                 except Exception as ex: ctx.violation('compdb-json', 'real binary: ninja %s\n' % ' '.join(t), 'compdb output is not valid JSON: %s' % ex)
         # -n prediction vs the real build of the same state
         pred = [l.split('] ', 1)[1] for l in run('-n', '-v').stdout.decode().split('\n') if l.startswith('[') and '] ' in l]
         real = [l.split('] ', 1)[1] for l in run('-v', '-j1').stdout.decode().split('\n') if l.startswith('[') and '] ' in l]; n += 2
+        real = [c for c in real if 'regen' not in c]      # the real build regenerates the stale manifest first; -n never does
         if not set(real) <= set(pred): ctx.violation('dry-run-prediction', 'real binary\n', 'the real build ran %r which -n did not list' % sorted(set(real) - set(pred))[:3])
         # compdb with every byte value in a command
         cmd_bytes = bytes(b for b in range(1, 128) if b not in (10, 13, 36)) 
